@@ -33,8 +33,11 @@ pub struct Tc<'a> {
 	pub key: Option<ThreadKey>,
 	pub try_max: u32,
 	pub stats: TStats,
-	/// poison model hook (C10): called with (leaf ids covered, mode, panicked)
 	pub fault_mode: bool,
+	/// true = an acquisition succeeded, false = one try attempt failed (in order)
+	pub outcomes: Vec<bool>,
+	/// raw ops of the most recent successful acquisition call (C08 order monitor)
+	pub last_ops: Vec<RawRec>,
 }
 
 pub fn expected_ids_member(a: &Arena, m: &MemberSpec, out: &mut Vec<LockId>) {
@@ -88,6 +91,8 @@ impl<'a> Tc<'a> {
 			try_max: 40,
 			stats: TStats::default(),
 			fault_mode: false,
+			outcomes: Vec::new(),
+			last_ops: Vec::new(),
 		}
 	}
 
@@ -110,7 +115,11 @@ impl<'a> Tc<'a> {
 			);
 		}
 		let after = self.w.snapshot();
-		if before != after {
+		// locks registered during the call (constructors) must be free; older ones unchanged
+		let changed = after.len() < before.len()
+			|| after[..before.len()] != before[..]
+			|| after[before.len()..].iter().any(|(e, s)| e.is_some() || !s.is_empty());
+		if changed {
 			self.v(
 				"C17",
 				"hold_state_changed",
@@ -140,76 +149,84 @@ impl<'a> Tc<'a> {
 
 	/// run one acquisition of `acq`
 	pub fn run_acq(&mut self, acq: &Acq) {
+		let t = acq.target.clone();
+		self.with_lk(&t, |tc, lk, exp| tc.do_acq(lk, acq, exp));
+	}
+
+	/// materialise `target` and hand it over as `&dyn Lk` together with the expected leaf ids
+	/// in declared order
+	pub fn with_lk<T>(
+		&mut self,
+		target: &Target,
+		k: impl FnOnce(&mut Tc<'a>, &dyn Lk, &[LockId]) -> T,
+	) -> Option<T> {
 		let arena: &'a Arena = self.arena;
-		let exp = expected_ids(arena, &acq.target);
-		match &acq.target {
-			Target::Leaf(i) => match &arena.leaves[*i] {
-				Leaf::M(l) => self.do_acq(l, acq, &exp),
-				Leaf::R(l) => self.do_acq(l, acq, &exp),
-				Leaf::PM(l) => self.do_acq(l, acq, &exp),
-				Leaf::PR(l) => self.do_acq(l, acq, &exp),
-			},
-			Target::Unit(u) => match &arena.units[*u] {
-				Unit::OwnedM(c) => self.do_acq(c, acq, &exp),
-				Unit::OwnedR(c) => self.do_acq(c, acq, &exp),
-				Unit::BoxedM(c) => self.do_acq(c, acq, &exp),
-				Unit::BoxedR(c) => self.do_acq(c, acq, &exp),
-				Unit::RetryM(c) => self.do_acq(c, acq, &exp),
-				Unit::RetryR(c) => self.do_acq(c, acq, &exp),
-			},
-			Target::Coll(kind, members) => {
-				self.with_members(members, |tc, outer| match kind {
+		let exp = expected_ids(arena, target);
+		let dupmsg = |what: &str| format!("{what} rejected duplicate-free {}", target_desc(target));
+		match target {
+			Target::Leaf(i) => Some(match &arena.leaves[*i] {
+				Leaf::M(l) => k(self, l, &exp),
+				Leaf::R(l) => k(self, l, &exp),
+				Leaf::PM(l) => k(self, l, &exp),
+				Leaf::PR(l) => k(self, l, &exp),
+			}),
+			Target::Unit(u) => Some(match &arena.units[*u] {
+				Unit::OwnedM(c) => k(self, c, &exp),
+				Unit::OwnedR(c) => k(self, c, &exp),
+				Unit::BoxedM(c) => k(self, c, &exp),
+				Unit::BoxedR(c) => k(self, c, &exp),
+				Unit::RetryM(c) => k(self, c, &exp),
+				Unit::RetryR(c) => k(self, c, &exp),
+			}),
+			Target::Coll(kind, members) => self
+				.with_members(members, |tc, outer| match kind {
 					CollKind::Boxed => {
 						let c = tc.nonacq("Boxed::try_new", || BoxedLockCollection::try_new(outer));
 						match c {
-							Some(c) => tc.do_acq(&c, acq, &exp),
-							None => tc.v(
-								"C07",
-								"false_duplicate",
-								format!("Boxed::try_new rejected duplicate-free {}", target_desc(&acq.target)),
-							),
+							Some(c) => Some(k(tc, &c, &exp)),
+							None => {
+								tc.v("C07", "false_duplicate", dupmsg("Boxed::try_new"));
+								None
+							}
 						}
 					}
 					CollKind::Ref => {
 						let c = tc.nonacq("Ref::try_new", || RefLockCollection::try_new(&outer));
 						match c {
-							Some(c) => tc.do_acq(&c, acq, &exp),
-							None => tc.v(
-								"C07",
-								"false_duplicate",
-								format!("Ref::try_new rejected duplicate-free {}", target_desc(&acq.target)),
-							),
+							Some(c) => Some(k(tc, &c, &exp)),
+							None => {
+								tc.v("C07", "false_duplicate", dupmsg("Ref::try_new"));
+								None
+							}
 						}
 					}
 					CollKind::Retry => {
 						let c = tc.nonacq("Retry::try_new", || RetryingLockCollection::try_new(outer));
 						match c {
-							Some(c) => tc.do_acq(&c, acq, &exp),
-							None => tc.v(
-								"C07",
-								"false_duplicate",
-								format!("Retry::try_new rejected duplicate-free {}", target_desc(&acq.target)),
-							),
+							Some(c) => Some(k(tc, &c, &exp)),
+							None => {
+								tc.v("C07", "false_duplicate", dupmsg("Retry::try_new"));
+								None
+							}
 						}
 					}
-				});
-			}
-			Target::PoisColl(members) => {
-				self.with_members(members, |tc, outer| {
+				})
+				.flatten(),
+			Target::PoisColl(members) => self
+				.with_members(members, |tc, outer| {
 					let c = tc.nonacq("Boxed::try_new", || BoxedLockCollection::try_new(outer));
 					match c {
 						Some(c) => {
 							let p = Poisonable::new(c);
-							tc.do_acq(&p, acq, &exp)
+							Some(k(tc, &p, &exp))
 						}
-						None => tc.v(
-							"C07",
-							"false_duplicate",
-							format!("Boxed::try_new rejected duplicate-free {}", target_desc(&acq.target)),
-						),
+						None => {
+							tc.v("C07", "false_duplicate", dupmsg("Boxed::try_new"));
+							None
+						}
 					}
-				});
-			}
+				})
+				.flatten(),
 		}
 	}
 
@@ -519,6 +536,8 @@ impl<'a> Tc<'a> {
 				w.begin_call(tid, Class::Acquire, label, lk.is_retry());
 				let mut held = lk.lock(key, acq.mode);
 				let ops = w.end_call(tid);
+				self.outcomes.push(true);
+				self.last_ops = ops.clone();
 				self.check_holds_exactly(exp, acq.mode, &format!("after {}", desc()), "C04");
 				if lk.is_retry() {
 					self.check_retry_ops(&ops, label);
@@ -536,6 +555,7 @@ impl<'a> Tc<'a> {
 					self.check_try_ops(&ops, label);
 					match r {
 						TryOut::Ok(mut held) => {
+							self.outcomes.push(true);
 							self.check_holds_exactly(
 								exp,
 								acq.mode,
@@ -547,6 +567,7 @@ impl<'a> Tc<'a> {
 							break;
 						}
 						TryOut::WouldBlock(k) => {
+							self.outcomes.push(false);
 							self.stats.try_failures += 1;
 							self.check_holds_nothing(
 								&format!("after Err from {}", desc()),
@@ -583,6 +604,7 @@ impl<'a> Tc<'a> {
 					lk.scoped(KeyArg::Lent(&mut lent_key), acq.mode, &body);
 					let ops = w.end_call(tid);
 					drop(this);
+					self.last_ops = ops.clone();
 					if lk.is_retry() {
 						self.check_retry_ops(&ops, label);
 					}
@@ -591,10 +613,12 @@ impl<'a> Tc<'a> {
 					lk.scoped(KeyArg::Owned(key), acq.mode, &body);
 					let ops = w.end_call(tid);
 					drop(this);
+					self.last_ops = ops.clone();
 					if lk.is_retry() {
 						self.check_retry_ops(&ops, label);
 					}
 				}
+				self.outcomes.push(true);
 				if invocations.get() != 1 {
 					self.v(
 						"C04",
@@ -647,6 +671,7 @@ impl<'a> Tc<'a> {
 					let ops = w.end_call(tid);
 					// blocking ops are only forbidden before the closure ran (acquisition part)
 					self.check_try_ops(&ops, label);
+					self.outcomes.push(ok);
 					let want = if ok { 1 } else { 0 };
 					if invocations.get() != want {
 						self.v(
